@@ -135,9 +135,9 @@ def ensureFree (s : State) (space : Nat) : State × EvRes × List Key := evictLo
 
 /-! ### data -/
 
-/-- POSIX/`memory.File` positional write: zero-fill the gap, overwrite, keep the tail.
-    `extendEmpty`: whether a zero-length write past the end grows the content (memory.File: yes,
-    os.File: no) -/
+/-- POSIX/`memory.File` positional write: zero-fill the gap, overwrite, keep the tail. A zero-length
+    write changes nothing (os.File; memory.File too since the `fix:` commit a4f0046 of C12 —
+    `extendEmpty` keeps the earlier behaviour of memory.File expressible) -/
 def writeAt (old : Bytes) (p : Bytes) (off : Nat) (extendEmpty : Bool := false) : Bytes :=
   if p.isEmpty && !extendEmpty then old
   else old.take off ++ List.replicate (off - old.length) 0 ++ p ++ old.drop (off + p.length)
@@ -411,11 +411,11 @@ def hWriteAt (s : State) (h : Handle) (p : Bytes) (off : Int) : State × HOut :=
   if off < 0 then (s, .invalid) else
   match hBlob s h with
   | none => (s, .evicted)
-  | some b => (setData s h.key b (writeAt b.data p off.toNat true), .n p.length)
+  | some b => (setData s h.key b (writeAt b.data p off.toNat), .n p.length)
 
 def hWrite (s : State) (h : Handle) (p : Bytes) : State × Handle × HOut :=
   match hBlob s h with
   | none => (s, h, .evicted)
-  | some b => (setData s h.key b (writeAt b.data p h.off true), { h with off := h.off + p.length }, .n p.length)
+  | some b => (setData s h.key b (writeAt b.data p h.off), { h with off := h.off + p.length }, .n p.length)
 
 end KrakenModel.BlobStore
